@@ -2,6 +2,7 @@ package gedcom
 
 import (
 	"fmt"
+	"sync"
 	"time"
 )
 
@@ -11,12 +12,26 @@ type FamilyNode struct {
 	cachedHusband, cachedWife bool
 	husband                   *HusbandNode
 	wife                      *WifeNode
+
+	// cachedAt is the nodeCache that was current when the husband and wife
+	// were cached. The nodeCache is replaced whenever any node is added or
+	// removed, which is also when the husband and wife need to be found again.
+	cachedAt *sync.Map
 }
 
 func newFamilyNode(document *Document, pointer string, children ...Node) *FamilyNode {
 	return &FamilyNode{
 		newSimpleDocumentNode(document, TagFamily, "", pointer, children...),
-		false, false, nil, nil,
+		false, false, nil, nil, nil,
+	}
+}
+
+// checkCache forgets the husband and wife if any nodes have been added or
+// removed since they were cached.
+func (node *FamilyNode) checkCache() {
+	if node.cachedAt != nodeCache {
+		node.resetCache()
+		node.cachedAt = nodeCache
 	}
 }
 
@@ -25,6 +40,8 @@ func (node *FamilyNode) Husband() (husband *HusbandNode) {
 	if node == nil {
 		return nil
 	}
+
+	node.checkCache()
 
 	if node.cachedHusband {
 		return node.husband
@@ -49,6 +66,8 @@ func (node *FamilyNode) Wife() (wife *WifeNode) {
 	if node == nil {
 		return nil
 	}
+
+	node.checkCache()
 
 	if node.cachedWife {
 		return node.wife
